@@ -221,25 +221,57 @@ def projection_identity(ctx, rng):
     basis = Basis(m, e)
     descr["mode"] = mode
     ctx.count("projection:" + mode + ("(curved)" if info.get("curved") else ""))
+    cplx = rng.random() < 0.25 and fam not in ("global",)
+    pkw = {"dtype": np.complex128} if cplx else {}
+    if cplx:
+        descr["dtype"] = "complex128"
+        ctx.count("projection:complex")
+
+    def rand_coeffs(k):
+        v = np.array([rng.randint(-8, 8) / 4 for _ in range(k)])
+        return v + 1j * np.array([rng.randint(-8, 8) / 4 for _ in range(k)]) if cplx else v
     if mode == "whole":
-        xs = np.array([rng.randint(-8, 8) / 4 for _ in range(basis.N)])
-        y = basis.project(basis.interpolate(xs))
+        xs = rand_coeffs(basis.N)
+        y = basis.project(basis.interpolate(xs), **pkw)
     elif mode == "subdomain":
         sub = np.array(sorted(rng.sample(range(m.nelements), rng.randint(1, m.nelements))), dtype=np.int32)
         I = basis.get_dofs(elements=sub).flatten()
-        xs = np.zeros(basis.N)
-        xs[I] = [rng.randint(-8, 8) / 4 for _ in I]
-        y = basis.project(basis.interpolate(xs), elements=sub)
+        xs = np.zeros(basis.N, dtype=np.complex128 if cplx else np.float64)
+        xs[I] = rand_coeffs(len(I))
+        y = basis.project(basis.interpolate(xs), elements=sub, **pkw)
         descr["cells"] = sub.tolist()
+    elif rng.random() < 0.5:
+        # ONE basis on the whole boundary, projections onto several parts of it in sequence (facets=...)
+        bf = [int(f) for f in m.boundary_facets()]
+        fb = FacetBasis(m, e)
+        parts = [np.array(sorted(rng.sample(bf, rng.randint(1, len(bf)))), dtype=np.int32) for _ in range(2)] + [None]
+        rng.shuffle(parts)
+        descr["mode"] = "boundary-parts-in-sequence"
+        ctx.count("projection:boundary-parts-in-sequence")
+        for step, F in enumerate(parts):
+            I = basis.get_dofs(facets=(F if F is not None else np.array(bf, dtype=np.int32))).flatten()
+            xs = np.zeros(basis.N, dtype=np.complex128 if cplx else np.float64)
+            xs[I] = rand_coeffs(len(I))
+            y = fb.project(fb.interpolate(xs), **({} if F is None else {"facets": F}), **pkw)
+            a, b = np.asarray(fb.interpolate(xs)), np.asarray(fb.interpolate(y))
+            err = float(np.abs(a - b).max())
+            sc = max(1.0, float(np.abs(a).max()))
+            if err > 1e-9 * sc or (cplx and not np.iscomplexobj(y)):
+                return ("boundary L2 projection (facets= given to project, one basis object, several parts in sequence) "
+                        "of a function of the trace space does not return that function",
+                        dict(descr, error=err, step=step, facets=None if F is None else F.tolist(),
+                             sequence=[None if q is None else q.tolist() for q in parts]),
+                        {"what": "projection", "mode": "boundary-sequence", "element": ename.split("(")[0]})
+        return False
     else:
         bf = [int(f) for f in m.boundary_facets()]
         F = np.array(sorted(rng.sample(bf, rng.randint(1, len(bf)))), dtype=np.int32)
         fb = FacetBasis(m, e, facets=F)
         I = basis.get_dofs(facets=F).flatten()
-        xs = np.zeros(basis.N)
-        xs[I] = [rng.randint(-8, 8) / 4 for _ in I]
+        xs = np.zeros(basis.N, dtype=np.complex128 if cplx else np.float64)
+        xs[I] = rand_coeffs(len(I))
         # only DOFs whose trace on the facet set is nonzero are determined by the boundary projection
-        y = fb.project(fb.interpolate(xs))
+        y = fb.project(fb.interpolate(xs), **pkw)
         descr["facets"] = F.tolist()
         # compare through the trace: interpolate both on the facet basis
         a, b = np.asarray(fb.interpolate(xs)), np.asarray(fb.interpolate(y))
@@ -250,6 +282,8 @@ def projection_identity(ctx, rng):
                     dict(descr, error=err), {"what": "projection", "mode": mode, "element": ename.split("(")[0]})
         return False
     err = float(np.abs(y - xs).max())
+    if cplx and not np.iscomplexobj(y):
+        err = max(err, float(np.abs(xs.imag).max()))
     sc = max(1.0, float(np.abs(xs).max()))
     # "to rounding error": the error of solving M y = M x* is bounded by cond(M) * machine epsilon
     from skfem import BilinearForm
